@@ -487,11 +487,8 @@ struct Mine;
 impl easy_ml::tensors::operations::private::Sealed for Mine {}
 fn main() {}
 """)
-# KNOWN DEFECT (notes/C18_C20.md, finding S1): the seal is `private::Sealed` (= Sealed<Self>), not
-# `private::Sealed<Rhs>`, so a client CAN implement Similar<Mine> for a crate type.  The probe states
-# what the property demands; it lives in probes/known_defects/ (compiled and reported in the
-# evidence, not a violation) until the crate is repaired, then it moves to probes/.
-known_defect("sealed_similar_foreign_rhs", "C20_sealed", "sealed-rhs tensors::operations Similar private Sealed", "error E0277", """
+# finding S1 / F14 (repaired in /repo dc5faf4): the seal must cover the Rhs parameter as well
+probe("sealed_similar_foreign_rhs", "C20_seal_covers_rhs", "sealed-rhs tensors::operations Similar private Sealed", "error E0277", """
 struct Mine;
 impl Similar<Mine> for Tensor<f64, 1> {
     fn similar(&self, _other: &Mine) -> bool { true }
